@@ -28,6 +28,33 @@ def _tmpbase():
     """temp dirs on tmpfs when there is one (the harness makes ~10 small files per Job.run)"""
     return "/dev/shm" if os.path.isdir("/dev/shm") and os.access("/dev/shm", os.W_OK) else None
 
+
+class _HarnessEnv:
+    """process-wide settings for the harness: pydra's persistent file-hash cache in a temp dir (not
+    ~/.cache), no etelemetry network request from Submitter.__init__, pydra's error log silenced"""
+
+    def __enter__(self):
+        import logging
+
+        self.hash_cache = tempfile.mkdtemp(prefix="vf_hashes_", dir=_tmpbase())
+        self.old = {k: os.environ.get(k) for k in ("PYDRA_HASH_CACHE", "NO_ET")}
+        os.environ["PYDRA_HASH_CACHE"] = self.hash_cache
+        os.environ["NO_ET"] = "1"
+        self.logger = logging.getLogger("pydra")
+        self.level = self.logger.level
+        self.logger.setLevel(logging.CRITICAL + 1)
+        return self
+
+    def __exit__(self, *exc):
+        self.logger.setLevel(self.level)
+        shutil.rmtree(self.hash_cache, ignore_errors=True)
+        for k, v in self.old.items():
+            if v is None:
+                os.environ.pop(k, None)
+            else:
+                os.environ[k] = v
+        return False
+
 SINGLE_KINDS = ("pos", "flag", "fmt", "dir")  # one path per field
 LIST_KINDS = ("rep", "sep", "lpos")  # list[File] fields
 DIRS = ("A", "B", "S")  # S = A/sub (nested below A)
@@ -396,17 +423,8 @@ def run(ctx):
         "the recorder replaces pydra.environments.base.execute; docker/singularity themselves are not run (their CLI grammar -v/-B src:dst:mode, -w/--pwd is assumed)",
         "the native argv of the same task in the same cache directory is the reference (its own correctness is C22/C23)",
     )
-    hash_cache = tempfile.mkdtemp(prefix="vf_c27_hashes_", dir=_tmpbase())
-    old = os.environ.get("PYDRA_HASH_CACHE")
-    os.environ["PYDRA_HASH_CACHE"] = hash_cache  # keep pydra's persistent file-hash cache out of ~/.cache
-    try:
+    with _HarnessEnv():
         _run(ctx)
-    finally:
-        shutil.rmtree(hash_cache, ignore_errors=True)
-        if old is None:
-            os.environ.pop("PYDRA_HASH_CACHE", None)
-        else:
-            os.environ["PYDRA_HASH_CACHE"] = old
 
 
 def _run(ctx):
@@ -434,7 +452,8 @@ def replay(rec):
     case = rec["case"]
     spec = case["spec"]
     group = {"fields": spec["fields"], "out": spec["out"], "envs": [spec["env"]]}
-    out = run_group(group)[0]
+    with _HarnessEnv():
+        out = run_group(group)[0]
     print(f"replay {PID}: spec={spec}")
     print(f"  native argv   : {out['native_argv']}")
     print(f"  container argv: {out['container_argv']}")
